@@ -63,6 +63,10 @@ func (t *websocketTransport) Send(ctx context.Context, e envelope) error {
 		return errors.New("transport is not open")
 	}
 
+	if err := ctx.Err(); err != nil {
+		return fmt.Errorf("ws transport: send: %w", err)
+	}
+
 	verifPoint("ws.send.spawn")
 	errChan := make(chan error)
 	go func() {
@@ -71,6 +75,17 @@ func (t *websocketTransport) Send(ctx context.Context, e envelope) error {
 
 	select {
 	case <-ctx.Done():
+		// A write that is not blocked completes at once: it is given a moment to do so, since
+		// interrupting it leaves the connection unable to send anything else (for instance,
+		// the finished session that follows a handler's canceled answer).
+		select {
+		case err := <-errChan:
+			if err != nil {
+				return fmt.Errorf("ws transport: send: %w", err)
+			}
+			return nil
+		case <-time.After(wsWriteGrace):
+		}
 		// Effectively fails all pending write operations before returning.
 		// Note that this makes the encoder to be in a permanent error state.
 		_ = conn.SetWriteDeadline(time.Now())
@@ -92,6 +107,10 @@ func (t *websocketTransport) Send(ctx context.Context, e envelope) error {
 		return nil
 	}
 }
+
+// wsWriteGrace is how long a send operation whose context is done waits for its
+// write to complete before interrupting it.
+const wsWriteGrace = 100 * time.Millisecond
 
 func (t *websocketTransport) Receive(ctx context.Context) (envelope, error) {
 	if ctx == nil {
